@@ -310,6 +310,24 @@ func init() {
 				cse.TimeoutMS = 30000
 				cs = append(cs, cse)
 			}
+			// a config-file plan whose first iteration is still executing when the last stage has ended and its workers are idle
+			for i := 0; i < map[string]int{"quick": 3, "thorough": 12}[tier]; i++ {
+				c := pick(r, 2, 4)
+				st := []string{
+					"- duration: 150ms\n  mode: constant\n  rate: 1/10ms\n- duration: 150ms\n  mode: constant\n  rate: 1/10ms\n",
+					"- duration: 150ms\n  mode: users\n- duration: 150ms\n  mode: constant\n  rate: 2/10ms\n- duration: 100ms\n  mode: constant\n  rate: 1/10ms\n",
+					"- duration: 120ms\n  mode: constant\n  rate: 1/10ms\n- duration: 200ms\n  mode: staged\n  stages: \"0s:1,200ms:3\"\n  iteration-frequency: 10ms\n",
+				}[i%3]
+				total := []int{300, 400, 320}[i%3]
+				p := c05Params{Ending: "trigger-duration", Blocking: "first-slow", TrigDurMS: total}
+				p.Spec = engine.Spec{Mode: "file", YAML: c05FileYAML(c, "20s", 0, st)}
+				p.Spec.MaxDurationMS, p.Spec.IgnoreDropped, p.Spec.CompletionMS, p.Spec.Concurrency = 20000, true, 5000, c
+				p.Desc = fmt.Sprintf("mode=file(%d stages, %d ms in all, max-duration 20s) c=%d ending=trigger-duration blocking=first-slow(900ms) completion=5s", strings.Count(st, "duration:"), total, c)
+				cse := core.MkCase("C05", "run", 7380+i, seed, p)
+				cse.Race = i%2 == 0
+				cse.TimeoutMS = 60000
+				cs = append(cs, cse)
+			}
 			// max-duration ends in the pause between two config-file stages, a users stage comes next
 			nps := 2
 			if tier == "thorough" {
@@ -471,7 +489,12 @@ func c05RunOnce(c *core.Case, o *core.Outcome, p c05Params) {
 				markStop()
 				e.cancel()
 			}
-			if p.Blocking != "none" {
+			if p.Blocking == "first-slow" {
+				// the first iteration of the run outlives its stage and the run's triggering; the others are instant
+				if n == 1 {
+					time.Sleep(900 * time.Millisecond)
+				}
+			} else if p.Blocking != "none" {
 				<-e.gate
 			}
 		}
